@@ -66,3 +66,38 @@ Print Assumptions C12_timeout_continues.
 Print Assumptions C12_cancel_stops.
 Print Assumptions C12_cancel_during_request.
 Print Assumptions C12_stream.
+
+(* ---- the monitor of the correspondence harness, as a theorem about the model -----------------
+   `mon_C12` (Corr/CorrPipeline.v) = timeouts clause && cancellation clause && grammar (mon_C13)
+   && inventory (mon_C01); `mon_C12_events` (Proofs/PipelineMonPack.v) is the conjunction of the
+   first three (`mon_C12_events_split`, by computation):
+   - every wait phase of the plan: Timeout events exactly for the objects whose last wait event
+     before the first Timeout is Pending, only with a timeout configured, nothing but Timeout /
+     status events afterwards; a phase that finishes with a pending object and no Timeout is
+     followed at once by the error event;
+   - cancelled before the sync: no task is started, one error event; cancelled while the request
+     of object i is served: no task is started after that request, and the run ends with an error;
+   - the stream obeys the grammar.
+   `C12_monitor_events` needs only `locals_nodup sc` (first clause of WF).  The inventory conjunct
+   is C01, so the full monitor inherits `WF` and `kf_free` of Properties/C01.v (known finding
+   C01-invns-apply-failed: `C12_monitor_refuted`); the destroyer needs no excluding hypothesis. *)
+From CliUtils Require Import Corr.CorrPipeline Proofs.PipelineOrphansRun Proofs.PipelineMonBase
+     Proofs.PipelineMonC12Defs Proofs.PipelineMonPack.
+
+Theorem C12_monitor_events : forall sc c0, locals_nodup sc -> mon_C12_events sc (run sc c0) = true.
+Proof. exact monitor_C12_events. Qed.
+
+Theorem C12_monitor_partial : forall sc c0, WF sc c0 -> kf_free sc c0 -> mon_C12 sc c0 (run sc c0) = true.
+Proof. exact monitor_C12. Qed.
+
+Theorem C12_monitor_destroy : forall sc c0, WF sc c0 -> o_destroy (sc_opts sc) = true ->
+  mon_C12 sc c0 (run sc c0) = true.
+Proof. exact monitor_C12_destroy. Qed.
+
+Theorem C12_monitor_refuted : exists sc c0, WF sc c0 /\ mon_C12 sc c0 (run sc c0) = false.
+Proof. exact monitor_C12_refuted. Qed.
+
+Print Assumptions C12_monitor_events.
+Print Assumptions C12_monitor_partial.
+Print Assumptions C12_monitor_destroy.
+Print Assumptions C12_monitor_refuted.
